@@ -128,7 +128,7 @@ Definition derive (hs : list (bytes * bytes)) : presult hinfo :=
              match get_header h_upgrade hs with Some v => nonempty v | None => false end in
   let encv := match get_header h_content_encoding hs with Some v => v | None => [] end in
   let enc := if is_ascii encv && mem_bytes (map lower encv) [t_gzip; t_deflate; t_br; t_zstd]
-             then Some encv else None in
+             then Some (if content_encoding_lowered then map lower encv else encv) else None in
   match get_header h_transfer_encoding hs with
   | None => POk (mkHinfo close_conn enc upg false)
   | Some te =>
